@@ -261,6 +261,11 @@ class TunnelCommunity(Community):
 
         await super().unload()
 
+        # Packets go through the crypto endpoint before they end up here: it has to stop listening as well.
+        crypto_endpoint = getattr(self, "crypto_endpoint", None)
+        if isinstance(crypto_endpoint, PythonCryptoEndpoint):
+            self.endpoint.remove_listener(crypto_endpoint)
+
     def get_serializer(self) -> Serializer:
         """
         Extend our serializer with the ability to (un)pack exit node flags.
